@@ -250,6 +250,7 @@ class LabelUnit:
             if not ok:
                 o.status, o.detail, o.cex = "failed", detail, cex
                 o.no_input_expected = cex is None
+                o.shape_only = clause.startswith("labels-are-the-matches")
             obs.append(o)
             return o
         f = world.func("ctparse._get_labels")
@@ -261,9 +262,10 @@ class LabelUnit:
         shape = (isinstance(val, UTerm) and val.fn == "comp" and isinstance(val.args[0], UTerm)
                  and val.args[0].fn == "re.findall" and isinstance(val.args[0].args[0], str)
                  and isinstance(val.args[0].args[1], UTerm) and val.args[0].args[1].same(txt) and val.args[2] == ()
-                 and isinstance(val.args[1], UTerm) and val.args[1].fn == "str.replace"
-                 and isinstance(val.args[1].args[0], UTerm) and val.args[1].args[0].fn == "elem"
-                 and tuple(val.args[1].args[1:]) == ("#", ""))
+                 and isinstance(val.args[1], UTerm) and isinstance(val.args[1].args[0], UTerm) and val.args[1].args[0].fn == "elem"
+                 and ((val.args[1].fn == "str.replace" and tuple(val.args[1].args[1:]) == ("#", ""))
+                      or (val.args[1].fn == "slice" and tuple(val.args[1].args[1:]) == (1, None, None))
+                      or (val.args[1].fn == "str.lstrip" and tuple(val.args[1].args[1:]) == ("#",))))
         ob("labels-are-the-matches-in-text-order-without-hash", ["C10", "C12", "C01"], bool(ok and shape),
            "the result is not [m.replace('#','') for m in re.findall(P, txt)] (an order-preserving map over the matches): %r" % (
                val if ok else r.value,), cex={"args": {"kind": "label-order"}})
@@ -515,3 +517,41 @@ _units_base4 = units
 
 def units(world):  # noqa: F811
     return _units_base4(world) + loader_units(world)
+
+
+# ---------------------------------------------------------------------------------------------
+# the two built-in fallback scorers: finite scores (C14), total (C01)
+def simple_scorer_units(world):
+    def mk(cls, meth):
+        def setup(it, w):
+            sc = Obj(w.classes[cls], fresh=False, label="scorer")
+            calls = []
+            rng = ModValRng(calls)
+            sc.attrs["rng"] = rng
+            return [sc, calls]
+
+        def call(it, w, a):
+            args = [Tok("txt"), Tok("ts"), Tok("pp")] + ([Tok("prod")] if meth == "score_final" else [])
+            return it.call(it.getattr_(a[0], meth), args, {})
+
+        def ens(it, w, a, r):
+            if cls == "DummyScorer":
+                return [("constant-zero-score", ["C14", "C01"], isinstance(r, float) and r == 0.0)]
+            return [("one-random-draw-in-the-unit-interval", ["C14", "C01"], len(a[1]) == 1 and z3.is_expr(r))]
+        return FuncUnit("scorer.%s.%s" % (cls, meth), ["scorer.%s.%s" % (cls, meth)], ["C14", "C01", "C12"], setup, call, ens,
+                        prop_map={"safety": ["C01"], "frame": ["C12"]})
+    return [mk(c, m) for c in ("DummyScorer", "RandomScorer") for m in ("score", "score_final")]
+
+
+class ModValRng:
+    """stand-in for random.Random: random() is a fresh real in [0, 1) (trusted: A-lib)"""
+
+    def __init__(self, calls):
+        self.calls = calls
+
+
+_units_base5 = units
+
+
+def units(world):  # noqa: F811
+    return _units_base5(world) + simple_scorer_units(world)
